@@ -701,7 +701,10 @@ class Surface:
               if moved is not None:
                   break
               for k, e in self.entries.items():
-                if k in self.used or "|" not in k:
+                if "|" not in k:
+                    continue
+                # an entry of a function that is gone may cover several sites: its code now sits in each former caller
+                if k in self.used and (k.split("|", 1)[0] in self.P.bodies or level == 2 or k not in getattr(self, "moved_used", set())):
                     continue
                 a1, b1 = k.split("|", 1)[1].split("#")[0], portable.split("#")[0]
                 if level == 2:
@@ -728,6 +731,9 @@ class Surface:
             if moved is not None:
                 e = self.entries[moved]
                 self.used.add(moved)
+                if not hasattr(self, "moved_used"):
+                    self.moved_used = set()
+                self.moved_used.add(moved)
                 if self.support_ok(e.get("support", [])):
                     self.chk.ok(R_SRC, inst.key, inst.body.loc(inst.bb), "table (site moved from %s): %s" % (moved.split("|", 1)[0], e["reason"]))
                     continue
